@@ -7,7 +7,7 @@ import math
 import numpy as np
 from hypothesis import strategies as st
 
-from vf import gens
+from vf import forms, gens
 from vf.core import Result, lib
 
 ID = "C12"
@@ -41,7 +41,7 @@ def strategy_(draw):
     oil = draw(gens.oil_params())
     n = draw(st.integers(0, 10))
     fr = [draw(st.one_of(st.floats(0.0, 1.0), st.floats(0.9, 1.1).map(lambda x: x / 2.5))) for _ in range(n)]
-    return {"oil": oil, "fractions": fr}
+    return {"oil": oil, "fractions": fr, "p_form": draw(forms.scalar_form())}
 
 
 def strategy(tier):
@@ -77,39 +77,47 @@ def check_case(case) -> Result:
     # ---- sample of pressures ----------------------------------------------------------------------
     ps = sorted({15.0 + f * (2.5 * pb - 15.0) for f in case["fractions"]} | {pb, 0.5 * pb, 0.9 * pb, 1.5 * pb, 2.5 * pb, 15.0})
     ps = [p for p in ps if 15.0 <= p <= 2.5 * pb]
+    # the scalar calls below receive each pressure in the generated form (Python / numpy scalar of either kind, 0-d
+    # array); integer forms carry whole-number pressures, float32 its own rounding
+    form = case.get("p_form", "float")
+    if form != "float":
+        ps = sorted({forms.representable(p, form) for p in ps if forms.representable(p, form) >= 15.0})
+    res.labels["p_form"] = form
+    frel = forms.rel(form, 1e-12, 2e-6)
+    sc = lambda q: forms.scalar(q, form)  # noqa: E731
     below = [p for p in ps if p < pb]
     above = [p for p in ps if p >= pb]
     res.nontrivial = len(below) >= 2 and len(above) >= 2
     res.labels["n_below"] = min(len(below), 5)
     res.labels["n_above"] = min(len(above), 5)
     res.labels["pb_decade"] = int(math.floor(math.log10(pb)))
-    rs = [float(lib("Rs", funcs["Rs"], p)) for p in ps]
-    bo = [float(lib("Bo", funcs["Bo"], p)) for p in ps]
-    mu = [float(lib("mu_o", funcs["mu_o"], p)) for p in ps]
-    rho = [float(lib("rho_o", funcs["rho_o"], p)) for p in ps]
-    co = [float(lib("c_o Spivey", O.oil_compressibility_undersat_Spivey, T, p, api, sg, gor)) for p in above]
+    rs = [float(lib("Rs", funcs["Rs"], sc(p))) for p in ps]
+    bo = [float(lib("Bo", funcs["Bo"], sc(p))) for p in ps]
+    mu = [float(lib("mu_o", funcs["mu_o"], sc(p))) for p in ps]
+    rho = [float(lib("rho_o", funcs["rho_o"], sc(p))) for p in ps]
+    co = [float(lib("c_o Spivey", O.oil_compressibility_undersat_Spivey, T, sc(p), api, sg, gor)) for p in above]
     for name, v in (("Rs", rs), ("Bo", bo), ("mu_o", mu), ("rho_o", rho), ("c_o", co)):
         if not all(math.isfinite(x) for x in v):
             res.bad("C12/finite", f"{name} not finite on {ps}: {v} oil={o}")
             return res
     # GOR: non-decreasing, == Rsi at/above, inverse of the bubble-point correlation below
     for (p0, r0), (p1, r1) in zip(zip(ps, rs), zip(ps[1:], rs[1:])):
-        res.check("C12/gor-non-decreasing", max(0.0, r0 - r1), 1e-12 * gor, f"Rs({p0!r})={r0!r} > Rs({p1!r})={r1!r} oil={o};")
+        res.check("C12/gor-non-decreasing", max(0.0, r0 - r1), frel * gor, f"Rs({p0!r})={r0!r} > Rs({p1!r})={r1!r} oil={o} (pressures as {form});")
     for p, r in zip(ps, rs):
         if p >= pb:
             if r != gor:
                 res.bad("C12/gor-equals-initial-above", f"Rs({p!r})={r!r} != Rsi={gor!r} at/above p_b={pb!r}")
         else:
             back = float(lib("pressure_bubblepoint_Standing", O.pressure_bubblepoint_Standing, T, api, sg, r))
-            res.check("C12/gor-inverts-bubble-point", abs(back - p), 1e-10 * p, f"p_b(Rs(p))={back!r} for p={p!r} oil={o};")
+            res.check("C12/gor-inverts-bubble-point", abs(back - p), max(1e-10, 10 * frel if form == "np.float32" else 0.0) * p, f"p_b(Rs(p))={back!r} for p={p!r} oil={o} (pressure as {form});")
     # FVF rises below, falls above; viscosity falls below (strictly, once the two pressures are 1e-6 p_b apart)
     def ordered(oracle, what, lo_val, hi_val, p0, p1, scale):
         """Assert lo_val < hi_val (strict when the pressures are well separated, else up to rounding)."""
-        if p1 - p0 > 1e-6 * pb:
+        if p1 - p0 > (1e-6 if form != "np.float32" else 1e-3) * pb:
             if not lo_val < hi_val:
                 res.bad(oracle, f"{what}: values {lo_val!r} -> {hi_val!r} for p {p0!r} -> {p1!r}, p_b={pb!r} oil={o}")
         else:
-            res.check(oracle, max(0.0, lo_val - hi_val), 1e-12 * scale, f"{what} p {p0!r} -> {p1!r} oil={o};")
+            res.check(oracle, max(0.0, lo_val - hi_val), frel * scale, f"{what} p {p0!r} -> {p1!r} oil={o};")
 
     for k in range(len(ps) - 1):
         p0, p1 = ps[k], ps[k + 1]
